@@ -7,20 +7,12 @@
    This file contains only the property theorems (each closed by [exact]) and [Print Assumptions];
    statements are pinned in Pins/C01.v.
 
-   PARTIAL AT THIS COMMIT: the composition is proved from C04's and C05's closed theorems
-   (Proofs/TcpNetTx.v assembles C05's ingress_inv / dispatch_inv_full / dispatch_segments /
-   send_inv / close_inv / ... into the one statement the composition consumes) except for ONE fact
-   about the sender that C05 has not proved: [c05_ka_bound] - the garbage octet of a keep-alive
-   probe (RFC 1122 4.2.3.6, sent at SND.NXT-1) carries a sequence number that is already
-   acknowledged.  It appears as an explicit premise and the theorems carry the suffix _partial;
-   nothing else is assumed (no Section variable survives into this file).  The premise is needed
-   for a real reason: a zero octet at an unacknowledged sequence number lies inside the receiver's
-   window and would be handed to the application.
-   STATUS: tcp-c05 has REFUTED the premise on the current tree (corpus/C05/tcp-c05-stale-max-seq-sent.case,
-   candidate defect D23: rtte.max_seq_sent survives SYN-RECEIVED -RST-> LISTEN -SYN->, so a re-accepting
-   listener sends its keep-alive at the previous connection's sequence number).  Until /repo resets
-   the estimator in the (Listen, Syn) arm and the premise is proved, the four _partial theorems are
-   implications from a false premise; they are kept because the composition itself is complete. *)
+   The composition consumes C04's closed theorems (Proofs/TcpRecvTheorems.v), C05's closed theorems
+   (assembled in Proofs/TcpNetTx.v into the one statement c05_contract; the position of a
+   keep-alive probe is TcpSendKa.keep_alive_below_una, provable since the D23 repair resets the RTT
+   estimator of a listener that falls back to LISTEN - a defect this composition exposed) and
+   tcp-c02's tcp_live_inv.  No premise about the sockets remains; the only hypothesis on the
+   adversary is the sequence-age assumption [run_age], proved redundant below 2 GiB. *)
 From SV Require Import Lib.Base Gen.Consts.
 From SV Require Import Model.Seq32 Model.Assembler Model.TcpBuf Model.TcpTypes Model.Tcp Model.TcpNet.
 From SV Require Import Proofs.TcpNetBase Proofs.TcpNetContract Proofs.TcpNetTx Proofs.TcpNetCompose Proofs.TcpNetInv Proofs.TcpNetProofs.
@@ -37,40 +29,40 @@ Print Assumptions C01_channel_subset_of_emitted.
    is a prefix of what A's application wrote, and symmetrically - under the age hypothesis
    [run_age] (every delivered segment is within 2^31 of the receiver's RCV.NXT / the sender's
    SND.UNA: RFC 9293's MSL assumption, stated on model states only, see Proofs/TcpNetCompose.v). *)
-Theorem C01_e2e_prefix_partial : c05_ka_bound -> forall ca cb st0 evs st,
+Theorem C01_e2e_prefix : forall ca cb st0 evs st,
   cfg_ok ca -> cfg_ok cb -> net_init ca cb = Ok st0 ->
   net_run st0 evs = Ok st -> run_age st0 evs ->
   prefix (ep_read (n_b st)) (ep_written (n_a st)) /\ prefix (ep_read (n_a st)) (ep_written (n_b st)).
 Proof. exact e2e_prefix_c. Qed.
-Print Assumptions C01_e2e_prefix_partial.
+Print Assumptions C01_e2e_prefix.
 
 (* recv reports Finished only after every octet the peer wrote before closing has been handed over *)
-Theorem C01_e2e_finished_complete_partial : c05_ka_bound -> forall ca cb st0 evs st,
+Theorem C01_e2e_finished_complete : forall ca cb st0 evs st,
   cfg_ok ca -> cfg_ok cb -> net_init ca cb = Ok st0 ->
   net_run st0 evs = Ok st -> run_age st0 evs ->
   (ep_finished (n_b st) = true -> ep_read (n_b st) = ep_written (n_a st)) /\
   (ep_finished (n_a st) = true -> ep_read (n_a st) = ep_written (n_b st)).
 Proof. exact e2e_finished_complete_c. Qed.
-Print Assumptions C01_e2e_finished_complete_partial.
+Print Assumptions C01_e2e_finished_complete.
 
 (* the age hypothesis is implied when fewer than 2^31 - 1 octets are written in each direction *)
-Theorem C01_seg_age_implied_below_2GiB_partial : c05_ka_bound -> forall ca cb st0 evs st,
+Theorem C01_seg_age_implied_below_2GiB : forall ca cb st0 evs st,
   cfg_ok ca -> cfg_ok cb -> net_init ca cb = Ok st0 -> net_run st0 evs = Ok st ->
   l_len (ep_written (n_a st)) < 2147483647 /\ l_len (ep_written (n_b st)) < 2147483647 ->
   run_age st0 evs.
 Proof. exact seg_age_when_small_c. Qed.
-Print Assumptions C01_seg_age_implied_below_2GiB_partial.
+Print Assumptions C01_seg_age_implied_below_2GiB.
 
 (* ... so below 2 GiB per direction the property holds against EVERY adversary schedule, every
    pair of ISNs (including ones that wrap 2^31 / 2^32 during the transfer), every configuration *)
-Theorem C01_e2e_below_2GiB_partial : c05_ka_bound -> forall ca cb st0 evs st,
+Theorem C01_e2e_below_2GiB : forall ca cb st0 evs st,
   cfg_ok ca -> cfg_ok cb -> net_init ca cb = Ok st0 -> net_run st0 evs = Ok st ->
   l_len (ep_written (n_a st)) < 2147483647 /\ l_len (ep_written (n_b st)) < 2147483647 ->
   (prefix (ep_read (n_b st)) (ep_written (n_a st)) /\ prefix (ep_read (n_a st)) (ep_written (n_b st))) /\
   (ep_finished (n_b st) = true -> ep_read (n_b st) = ep_written (n_a st)) /\
   (ep_finished (n_a st) = true -> ep_read (n_a st) = ep_written (n_b st)).
 Proof. exact e2e_small_c. Qed.
-Print Assumptions C01_e2e_below_2GiB_partial.
+Print Assumptions C01_e2e_below_2GiB.
 
 (* non-vacuity: a concrete schedule with reordering, duplication and loss (A's sequence numbers
    wrap 2^32 inside the transfer): first a strict prefix is delivered, then - after the
